@@ -1,0 +1,15 @@
+//go:build verif
+
+package rtpav1
+
+// Contracts checked by /verif/govc (see /verif/DESIGN.md). Comment-only file.
+
+// C03, aggregation header of the AV1 packetizer: a packet is closed with Y=1 (and the next one
+// opened with Z=1) only when a proper part of the current OBU was written into it, because
+// that is what Y and Z tell the depacketizer: "the last OBU element continues in the next
+// packet". Closing a packet into which nothing of the OBU fitted must not set them.
+//@ func (e *Encoder) Encode
+//@   requires e.SSRC != nil
+//@   assert[C03]@call:finalizeCurPacket#1 (fragmented ==> len(obu) < obuLen) && (!fragmented ==> len(obu) == obuLen)
+//@   assert[C03]@call:createNewPacket#2 (fragmented ==> len(obu) < obuLen) && (!fragmented ==> len(obu) == obuLen)
+//@   modifies *
